@@ -69,6 +69,7 @@ def run(chk, tier):
     if len(ls) != 2:
         return
     outer, inner = ls
+    common.pre_loop_returns(chk, "R-LIN", SCAN, prog, fn, outer["head"], opaque=OPAQUE, what="the pass over the records")
     byname = lambda lp: {fn.local_name(l): l for l in lp["tracked"]}
     on, inn = byname(outer), byname(inner)
     need = {"coverage_pattern_number", "radials", "iter"}
